@@ -343,7 +343,7 @@ func IfaceGroups(opts []cat.Opts, cb bool) []*cat.Catalog {
 }
 
 // DecPairs is the motif of two decorators meeting: every pair of decorators over the keys T0,
-// T2 (the element type of the group, as a single value), T2@g and T2@h, both in one scope or one
+// T2 (the element type of the group, as a single value), T2@g, T2@h and the pair (T2@g, T0), both in one scope or one
 // above the other, over a constructor feeding both groups and providing T0 and T2. A scope takes
 // one decorator per key and no more, in whatever order they arrive; a single value and a group
 // of the same element type are different keys, and so are two groups of different names.
@@ -359,6 +359,10 @@ func DecPairs(opts []cat.Opts, cb bool) []*cat.Catalog {
 		func(s string) *cat.Fn {
 			return dec(s, []cat.Param{par("T2@h", "grp", 1)}, cat.Result{Ks: []string{"T2@h"}, M: "grp", N: 2, O: 1})
 		},
+		// two keys at once, the group first: refused as a whole when the second key is taken
+		func(s string) *cat.Fn {
+			return dec(s, []cat.Param{par("T2@g", "grp", 1), par("T0", "req", 1)}, cat.Result{Ks: []string{"T2@g"}, M: "grp", N: 1, O: 1}, cat.Result{Ks: []string{"T0"}, M: "one", O: 1})
+		},
 	}
 	for k1 := range kinds {
 		for k2 := range kinds {
@@ -369,6 +373,7 @@ func DecPairs(opts []cat.Opts, cb bool) []*cat.Catalog {
 				c.Fns["d1"] = kinds[k1](sp[0])
 				c.Fns["d2"] = kinds[k2](sp[1])
 				c.Fns["i1"] = inv(par("T0", "req", 1), par("T2@g", "grp", 1), par("T2@h", "grp", 1), par("T2", "opt", 1))
+				c.Fns["i2"] = inv(par("T2@g", "soft", 1), par("T2", "opt", 1))
 				c.Order = []string{"c1", "c2"}
 				c.Note = fmt.Sprintf("decpairs k1=%d k2=%d scopes=%v", k1, k2, sp)
 				out = append(out, finish(c, opts, cb))
